@@ -97,6 +97,12 @@ class C14(Plugin):
                  "not", "ampx", "amp=", "\x00", "#" + "0" * 5000 + "65;", "#" + "9" * 5000 + ";"]
                 for a in (0, 1) for al in (None, '"', "'", ">")]
         out += [{"k": 3, "lo": lo, "n": 512} for lo in (0, 0xD700, 0xFD00, 0xFF00, 0x1FE00, 0x10FE00, 0x10FF00)]
+        # the reference written for an unencodable code point: every code point that has a named entity, and boundaries
+        from html5lib.serializer import _encode_entity_map
+        named = sorted(_encode_entity_map)
+        out += [{"k": 6, "cps": named[i:i + 400]} for i in range(0, len(named), 400)]
+        out.append({"k": 6, "cps": [1, 9, 0x7F, 0x80, 0x9F, 0xA0, 0xFF, 0x100, 0xFFF, 0x1000, 0xD7FF, 0xE000, 0xFFFF, 0x10000,
+                                    0xFFFFF, 0x100000, 0x10FFFF]})
         return out
 
     def known_witnesses(self):
@@ -128,8 +134,11 @@ class C14(Plugin):
                 nm = rng.choice(names)
                 p = nm[:rng.randint(0, len(nm))] + rng.choice(["", "", "a", ";", "Z", "1"])
                 yield {"k": rng.choice([1, 2]), "s": p}
-            elif r < 0.65:
+            elif r < 0.62:
                 yield {"k": 3, "lo": rng.randrange(0, 0x110000, 64), "n": 64}
+            elif r < 0.65:
+                cps = [rng.choice([rng.randrange(1, 0x110000), rng.randrange(1, 0x3000)]) for _ in range(40)]
+                yield {"k": 6, "cps": [c for c in cps if not 0xD800 <= c <= 0xDFFF]}
             elif r < 0.9:
                 parts = []
                 for _ in range(rng.randint(1, 4)):
@@ -158,6 +167,8 @@ class C14(Plugin):
             return [k, case["s"]]
         if k == 3:
             return [3, list(range(case["lo"], case["lo"] + case["n"]))]
+        if k == 6:
+            return [4, case["cps"]]
         return None
 
     @staticmethod
@@ -199,6 +210,16 @@ class C14(Plugin):
                 return [entitiesTrie.longest_prefix(case["s"])]
             except KeyError:
                 return []
+        if k == 6:
+            # serializer.py htmlentityreplace_errors, one code point at a time
+            from html5lib.serializer import htmlentityreplace_errors
+            res = []
+            for cp in case["cps"]:
+                ch = chr(cp)
+                r, end = htmlentityreplace_errors(UnicodeEncodeError("ascii", ch, 0, 1, "x"))
+                assert end == 1
+                res.append(r)
+            return res
         if k == 3:
             res = []
             for v in range(case["lo"], case["lo"] + case["n"]):
@@ -242,6 +263,17 @@ class C14(Plugin):
             if not (o.startswith(text) and (case["s"][consumed:] == o[len(text):] + rest)
                     and all(c in ALNUM for c in o[len(text):])):
                 v.append(("reference-decoded-differently", repr((case["s"], case["attr"], o, rest, text, consumed))))
+        if k == 6:
+            # "... decodes back to the same text": the reference, followed by anything, decodes to the code point
+            import html as _html
+            for cp, ref in zip(case["cps"], out):
+                for tail in ("", "x", "1;", "="):
+                    text, consumed = spec_decode(ref[1:] + tail, False, None)
+                    if not (text == chr(cp) and consumed == len(ref) - 1):
+                        cls = "c1-control-reference" if (0x80 <= cp <= 0x9F or cp in _html._invalid_charrefs or cp == 0xD) \
+                            else "written-reference-decodes-differently"
+                        v.append((cls, "U+%04X written %r decodes to %r" % (cp, ref, text)))
+                        break
         if k == 3:
             for i, (c, e) in enumerate(out):
                 n = case["lo"] + i
@@ -273,7 +305,7 @@ class C14(Plugin):
         return v
 
     def classify(self, cls, case, detail):
-        if cls == "unencodable-c1-control-roundtrip":
+        if cls in ("unencodable-c1-control-roundtrip", "c1-control-reference"):
             return "C14-unencodable-c1-control-roundtrip"
         return None
 
@@ -283,7 +315,7 @@ class C14(Plugin):
             return "num%d" % case["lo"]
         if k in (0, 4) and ("&" in case.get("text", "&") and len(case.get("s", "x")) > 0):
             return repr(sorted(case.items(), key=str))
-        if k in (1, 2, 5):
+        if k in (1, 2, 5, 6):
             return repr(sorted(case.items(), key=str))
         return None
 
